@@ -456,8 +456,34 @@ def threshold_tables(year):
     return obs
 
 
+def official_sources():
+    """Every transcribed amount that can be read in an official booklet bundled with the repository is read there (verbatim sentence)."""
+    import importlib
+    import sys
+    from .. import pdftext
+    if oblig.VERIF not in sys.path:
+        sys.path.insert(0, oblig.VERIF)
+    src = importlib.import_module('contracts.official_sources')
+    obs = []
+    for year, what, pdf, sentence in src.sources():
+        path = os.path.join(extract.REPO, 'habutax', 'forms', f'ty{year}', 'instructions', pdf)
+        oid = f'C08/source/{year}/{pdf}/{what.split(" (")[0].replace(" ", "-")}'
+        text = pdftext.norm(pdftext.text(path))
+        if not text:
+            obs.append(Ob(id=oid + '/uncovered', backend='none', bounded=True, cases=0, function=f'forms/ty{year}/instructions/{pdf}', note='the booklet is not bundled or cannot be decoded: the amount stays a cited transcription'))
+            continue
+        ok = pdftext.norm(sentence) in text
+        if ok:
+            obs.append(Ob(id=oid, backend='text-match', function=f'forms/ty{year}/instructions/{pdf}', clause=f'{what}: the transcribed amounts are the ones printed in the bundled official instructions', vc=sentence[:300]))
+        else:
+            obs.append(Ob(id=oid, status=oblig.REFUTED, backend='text-match', function=f'forms/ty{year}/instructions/{pdf}',
+                          clause=f'NOT: {what}: the sentence with the transcribed amounts does not occur in the bundled official instructions', witness={'expected_sentence': sentence},
+                          solver_output='no verbatim occurrence', replay={'reproduced': True, 'note': 'text comparison against the decoded booklet'}))
+    return obs
+
+
 def run(tier, seed, t0):
-    tasks = []
+    tasks = [Task('C08/sources', official_sources)]
     for year in extract.YEARS:
         for s in sites():
             tasks.append(Task(f'C08/{year}/{s["id"]}', check_site, year, s))
@@ -468,5 +494,5 @@ def run(tier, seed, t0):
                         trusted_base=base.TRUSTED + ['contracts/official.py (transcribed published values)', 'contracts/statutory_sites.py (where each amount shows or decides)'],
                         assumptions=base.assumptions('A-PY', 'A-REAL', 'A-READ', 'A-ORACLE', 'A-ENUM') + [
                             'the site table lists the places where a statutory amount shows or decides; a statutory amount used at a site missing from the table is not checked',
-                            'template-printed amounts are not yet cross-read from the PDFs in this check'],
+                            'A-ORACLE is checked against the repository itself where it can be: the amounts listed in contracts/official_sources.py are read verbatim in the bundled official instruction booklets of 2022 and 2023 (decoded by pyvc/pdftext.py); brackets, standard deduction, capital-gain and AMT amounts and all 2021 amounts remain cited transcriptions (their sources are not bundled)'],
                         checker_cmd='./check C08', min_obligations=150, extra={'exhaustive': True})
